@@ -1,5 +1,32 @@
-(* Properties/C06.v — weighted graph.  Statements only. *)
-From Verif Require Import Base.Str Base.Outcome Model.Ast Model.WGraph Model.WWeights.
+(* Properties/C06.v — the weighted graph is a deterministic function of the model.  Statements only.
+   The transcribed algorithm has exactly one schedule, the depth-first start order, as an argument; Go's
+   other map ranges iterate weight maps whose order is fixed in the model (assumed not to reach the
+   result; sampled by repetition on every run).  Proved: the result does not depend on the order in which
+   the model lists its type definitions; refuted (kernel-computed witness): on a cyclic model that is not
+   well-founded it does depend on the start order (known finding K-WG-cycles).  Independence of the start
+   order on well-founded models is not proved; it is checked on every run over explicit orders. *)
+From Coq Require Import Permutation.
+From Verif Require Import Base.Str Base.Outcome Model.Ast Model.Printer Model.WGraph Model.WWeights
+  Proofs.WeightsProofs Proofs.Witnesses.
 
-Theorem C06_empty_model : forall s, build_weighted None {| m_schema := s; m_types := []; m_conds := [] |} = Ok empty_graph.
-Proof. reflexivity. Qed.
+(* 1. permuting the type definitions of the model changes nothing: same unweighted graph, hence same outcome
+      for every start order *)
+Theorem C06_type_order : forall (m : model) ts',
+  NoDup (map td_name (m_types m)) -> Permutation (m_types m) ts' ->
+  wbuild m = wbuild {| m_schema := m_schema m; m_types := ts'; m_conds := m_conds m |}.
+Proof. exact wbuild_types_order. Qed.
+Theorem C06_type_order_weights : forall o (m : model) ts',
+  NoDup (map td_name (m_types m)) -> Permutation (m_types m) ts' ->
+  build_weighted o m = build_weighted o {| m_schema := m_schema m; m_types := ts'; m_conds := m_conds m |}.
+Proof. exact build_weighted_types_order. Qed.
+
+(* 2. same model, same start order: same outcome (the model function has no other input) *)
+Theorem C06_function_of_model_and_order : forall o o' m m', o = o' -> m = m' -> build_weighted o m = build_weighted o' m'.
+Proof. intros; subst; reflexivity. Qed.
+
+(* 3. refuted: the start order reaches the verdict on a cyclic model that is not well-founded *)
+Theorem C06_order_refuted :
+  exists m o1 o2, is_ok (build_weighted (Some o1) m) <> is_ok (build_weighted (Some o2) m).
+Proof.
+  exists m_order, o_insertion, o_other. rewrite m_order_rejected, m_order_accepted. discriminate.
+Qed.
